@@ -1260,6 +1260,22 @@ def rule_collect_ids(ctx, facts, rule):
               "fetch_add sites %s, same id sent and returned: %s" % (fa, same), extra="ids")
 
 
+def rule_not_sampled_sentinel(ctx, facts, rule):
+    """Unsampled roots carry a reserved collect id; their drop / cancel still sends CommitCollect / DropCollect for it. The
+    reserved value must be one the generator (NEXT_COLLECT_ID counting up from its initial value) cannot hand out: usize::MAX."""
+    cs = [c for p, c in facts.consts.items() if p.endswith("::NOT_SAMPLED_COLLECT_ID")]
+    if not cs:
+        ctx.fail(rule, "fastrace::collector::global_collector::NOT_SAMPLED_COLLECT_ID", "-", "the reserved collect id of unsampled roots exists",
+                 "anchor lost: no constant NOT_SAMPLED_COLLECT_ID", extra="sentinel")
+        return
+    v = cs[0].get("v")
+    ctx.check(v == (1 << 64) - 1, rule, cs[0]["path"], "-",
+              "the collect id reserved for unsampled roots is usize::MAX, which the id generator (counting up from 0) never hands out",
+              "value %s" % v,
+              "NOT_SAMPLED_COLLECT_ID = %s: a sampled trace can be given the same id, and finishing or cancelling any unsampled root then "
+              "commits / cancels that trace" % v, extra="sentinel")
+
+
 def rule_attachments_are_new_entries(ctx, facts, rule):
     """C06-R1b: a local event / property set is always recorded as a new pseudo-span under the current innermost span;
     it is never merged into an entry recorded earlier (whose parent may be a span that has finished since)."""
@@ -1310,6 +1326,31 @@ def rule_danglings_key_unique(ctx, facts, rule):
               "span carry the same id, the first copy mounted takes every attachment (twice), the second gets none -- "
               "let m = Span::enter_with_parents(\"m\", [&root, &child_of_root]); m.add_property(..); m.add_event(..)" % key,
               extra="danglings-key")
+
+
+def rule_mount_appends_only(ctx, facts, rule):
+    """mount_danglings appends what was parked and does nothing else to a record's events / properties: no dedup, sort,
+    retain, truncate ... (two attachments with equal content are two attachments)."""
+    prov = Prov(facts)
+    fn = ctx.need_fn(facts, "fastrace::collector::global_collector::mount_danglings", rule)
+    if fn is None:
+        return
+    bad = []
+    n = 0
+    for g in [fn] + facts.closures_of(fn):
+        for b in g.calls_re(r"alloc::vec::Vec::<T, A>::\w+$|slice::<impl \[T\]>::\w+$", cleanup=False):
+            t = g.term(b)
+            src = prov.of_operand(g, t["args"][0]) if t["args"] else set()
+            if not any(o.path and o.path[-1] in (".events", ".properties") and ".danglings" not in o.path for o in src if o.kind in ("param", "cparam", "upvar", "call")):
+                continue
+            if not any(x in t["arg_tys"][0] for x in ("EventRecord", "Cow<")):
+                continue
+            n += 1
+            op = t["callee"].rsplit("::", 1)[1]
+            if op not in ("extend", "push", "append", "reserve", "extend_from_slice", "len", "is_empty", "iter", "as_slice", "capacity"):
+                bad.append((g.loc(b), op))
+    ctx.check(not bad, rule, fn.path, fn.span, "mounting only appends to record.events / record.properties (nothing is deduplicated, sorted, dropped)",
+              "%d operations on the record's lists" % n, "other operations on the record's lists: %s" % bad, extra="appends-only")
 
 
 def rule_mount_scope(ctx, facts, rule):
